@@ -8,7 +8,7 @@
 
 use crate::dev::ColorKind;
 use crate::erased::Ad;
-use crate::exec::{run_drawable, DrawRun, RunCfg, CHAIN_KINDS};
+use crate::exec::{run_drawable, DrawRun, RunCfg};
 use crate::json::J;
 use crate::prop::{Opts, Property, RunOut, Tier, Violation};
 use crate::rng::{det_hash, Hash64, Src};
@@ -168,7 +168,7 @@ impl Property for C01 {
     }
 
     fn gen(&self, src: &mut Src) -> Scenario {
-        let dev_kind = CHAIN_KINDS[src.draw(3) as usize];
+        let dev_kind = crate::exec::gen_dev_kind(src);
         // 1 run in 256: display-scale sizes and coordinates (up to 300, stroke widths up to 140)
         let huge = src.draw(256) == 255;
         let large = src.draw(5) < 3;
